@@ -67,4 +67,17 @@ PROPS = {
                      "end to end by D5 (the session model uses the same generator), not by D2",
                      "release arithmetic (wrapping seed)"],
     ),
+    "C16": dict(
+        modules=["Fuota.Props.C16"],
+        suites=[dict(name="d4", cfg="matrix")],
+        rule="query = one call of one of the three flash.rs adapters (new / store / get / set_row / row / num_rows) on a "
+             "simulated embedded-storage NorFlash device, answered by the Rust adapter and by the Lean model with the "
+             "returned bytes and the complete device access log; the property oracle (shadow map round trip, frame, "
+             "contiguous layout, alignment, range, no 0->1, no re-programming on non-multiwrite devices, num_rows fit) "
+             "runs on the implementation; distinct = distinct query text",
+        trusted=["crate bitvec / embedded-storage-async traits as compiled", "the in-memory NorFlash device of harness/src/d4.rs"],
+        assumptions=["NOR program = bitwise AND (MultiwriteNorFlash semantics for the data adapter)",
+                     "addresses below 2^32 (the `as u32` casts of flash.rs are not modelled)",
+                     "range start/end multiples of the write size (implied by a successful erase in `new`)"],
+    ),
 }
